@@ -586,7 +586,8 @@ pub fn execute(ctx: &Ctx, trace: &Trace, opts: &ExecOpts) -> Outcome {
                 if p == s.n_total() - 1 {
                     set_probe(&mut o, P_LAST_EC_LAST_BLOCK);
                 }
-                if s.idx == 23 && (p == s.n_data - 1 || p == s.n_data - 2) {
+                // last data codewords of the two short blocks (8 and 9) of 144x144
+                if s.idx == 23 && (p == 8 + 10 * 154 || p == 9 + 10 * 154) {
                     set_probe(&mut o, P_144_SHORT_BLOCK_LAST_DATA);
                 }
             }
@@ -631,6 +632,9 @@ pub fn execute(ctx: &Ctx, trace: &Trace, opts: &ExecOpts) -> Outcome {
                 }
                 if syn[..t].iter().all(|x| *x == 0) && syn.iter().any(|x| *x != 0) {
                     set_probe(&mut o, P_FIRST_T_SYNDROMES_ZERO);
+                }
+                if s.k % 2 == 1 && syn[..2 * t].iter().all(|x| *x == 0) && syn[2 * t] != 0 {
+                    set_probe(&mut o, P_ALIGNED_2T_ODD_K);
                 }
                 if syn[0] != 0 && dist[b] <= t {
                     for v in 2..=dist[b].min(4) {
